@@ -352,7 +352,7 @@ def check_sampled(ctx, case):
 
 
 def part_sampled(ctx):
-    n = 200 if ctx.tier == "quick" else 1500
+    n = 200 if ctx.tier == "quick" else 20000
     hyp_run(ctx, SAMPLED, lambda c: check_sampled(ctx, c), n, name="sampled")
 
 
